@@ -7,7 +7,7 @@ cd "$(dirname "$0")"
 mkdir -p gen ../../build/include/rkcommon ../../build/C04
 python3 ../../lib/mkversion.py >/dev/null 2>&1
 python3 ../../tools/cxx2coq/cxx2coq.py ../../tools/cxx2coq/inst/vec.cpp gen/GenVec.v.new --repo "${VERIF_REPO:-/repo}" -D RKCOMMON_NO_SIMD \
-  --filter2 std::less --json ../../build/C04/vec.json \
+  --retloc --filter2 std::less --json ../../build/C04/vec.json \
   --only '^(op_(add|sub|mul|div|rem|eq|ne)|abs__|rcp|rsqrt__|sin__|cos__|madd__|anyLessThan__|dot__|length__|cross__|normalize__|safe_normalize__|interpolate_uv__|min__|max__|divRoundUp__|reduce_|lerp__|clamp__v|arg_max__|less_op_call__v|v[234]a?(f|i|d|uc)_)' \
   && { cmp -s gen/GenVec.v.new gen/GenVec.v || mv gen/GenVec.v.new gen/GenVec.v; rm -f gen/GenVec.v.new ../../build/C04/vec.json ../../build/C04/vec.json.2; }
 python3 ../../tools/cxx2coq/cxx2coq.py ../../tools/cxx2coq/inst/const.cpp gen/GenConst.v.new --repo "${VERIF_REPO:-/repo}" -D RKCOMMON_NO_SIMD --exact-literals \
